@@ -2,7 +2,7 @@
 (* C12 - the standard definitions: reflected CRC-32 (polynomial 0xEDB88320)  *)
 (* as a register machine, JAMCRC, the zero-initialised variant used for      *)
 (* shader keys, SqPack path hashing, and SHA-1 (FIPS 180-1).                 *)
-EXTENDS Naturals, Sequences, SequencesExt, Words, Text
+EXTENDS Naturals, Sequences, SequencesExt, FiniteSetsExt, Words, Text
 
 Poly == <<60856, 33568>>      \* 0xEDB8 0x8320
 
@@ -20,6 +20,11 @@ Jamcrc(s)      == CrcRun(Ones32, s)            \* CRC-32 without the final inver
 ZlibCrc(s)     == NotW(CrcRun(Ones32, s))      \* the ordinary CRC-32
 CrcZeroInit(s) == CrcRun(Zero32, s)            \* shader keys: zero initial value, no final XOR
 PathHash(s)    == Jamcrc(Lower(s))             \* SqPack partial path hash
+\* the two-part key of an index file: the path is split at its LAST '/', whatever stands on either side (an empty file
+\* name, an empty or slash-terminated folder part); both parts lower-cased and hashed on their own
+HasSlash(s)    == \E i \in 1..Len(s) : s[i] = 47
+SplitHash(s)   == LET k == Max({i \in 1..Len(s) : s[i] = 47})
+                  IN [name |-> PathHash(SubSeq(s, k + 1, Len(s))), path |-> PathHash(SubSeq(s, 1, k - 1))]
 
 -----------------------------------------------------------------------------
 (* SHA-1 *)
